@@ -134,7 +134,7 @@ def main(argv):
         r = g.result or {'verdict': 'unknown', 'reason': 'not run', 'ms': 0, 'backend': '-'}
         solver_ms += r.get('ms', 0)
         per_ob.append({'name': g.ob.name, 'kind': g.ob.kind, 'verdict': r['verdict'], 'backend': r.get('backend'),
-                       'ms': r.get('ms', 0)})
+                       'ms': r.get('ms', 0), **({'z3_config': r['config'], 'slice': r.get('slice')} if r.get('config') is not None else {})})
         if g.expect == 'sat':
             n_canary += 1
             if r['verdict'] == 'unsat':
@@ -244,6 +244,9 @@ def main(argv):
         'obligations_failing_as_known_findings': n_known_obligations,
         'solver_ms_total': solver_ms,
         'per_obligation': per_ob if len(per_ob) <= 400 else per_ob[:400] + [{'truncated': len(per_ob) - 400}],
+        'slowest_obligations': [{'name': o['name'], 'ms': o['ms'], 'verdict': o['verdict'], 'z3_config': o.get('z3_config'), 'slice': o.get('slice')}
+                                for o in sorted(per_ob, key=lambda o: -o.get('ms', 0))[:12]],
+        'solver_budget_ms': timeout_ms,
         'clauses': S.clauses or meta.get('clauses', {}),
         'undecided': [list(u) for u in undecided],
         'known_findings_observed': [k['key'] for k in known_hits],
